@@ -78,12 +78,47 @@ def doc_events(b, sch, rd, toks, rng, slices, nodes, n_ranges):
     return n_ev
 
 
+def pin_hash(schema_name, e, doc, sl):
+    import hashlib
+    key = [schema_name, e.get("op") or e.get("helper"), doc, e.get("from"), e.get("to"), e.get("pos"), sl]
+    return hashlib.sha1(json.dumps(key, sort_keys=True).encode()).hexdigest()[:12]
+
+
+def pinned_stage(stats, out):
+    """A stage that is the same on every run (own fixed random stream, canonical order of the TLC-generated
+    documents): the inputs on which the library is known to place content outside the isolating node are
+    listed one by one in known_findings.json (`inputs`), so any *other* input of this stage that leaks is a
+    violation.  (The seeded stages below can only use the broad signature of that finding.)"""
+    prng = random.Random(20261001)
+    gb = universe.bounds(9, max_depth=5, max_run=1, chars=(97,), marksets=((),), max_kids=2,
+                         attrs={"h": [{"level": "1"}], "ol": [{"order": "1"}]})
+    sch, js, docs = universe.tlc_docs("s3", gb, stats)
+    docs = sorted((d for d in docs if iso_spans(sch, d)), key=lambda d: json.dumps(d, sort_keys=True))
+    if len(docs) > 160:
+        docs = prng.sample(docs, 160)
+    real = [proj.unproj(sch, d) for d in docs]
+    slices = c11.slice_pool(real, prng, 2)
+    nodes = c11.payload_nodes(sch, prng)
+    b = trace.Batch(js)
+    for d, rd in zip(docs, real):
+        doc_events(b, sch, rd, d, prng, slices, nodes, 8)
+    mine: list[Violation] = []
+    c11.collect([(b, "P pinned[s3]")], "C18", stats, mine)
+    for v in mine:
+        v.sig["stage"] = "pinned"
+        v.sig["pinned"] = pin_hash("s3", v.replay["event"], v.replay["doc"], v.replay["slice"])
+    stats.bounds["pinned_events"] = len(b.events)
+    out.extend(mine)
+    return mine
+
+
 def run(tier: str, seed: int, t0: float) -> int:
     stats = Stats()
     out: list[Violation] = []
     thorough = tier == "thorough"
     rng = random.Random(seed)
     jobs = []
+    pinned_stage(stats, out)
     sch, js, docs = c11.shape_universe("s3", stats, rng, 200 if not thorough else 3000, 10)
     docs = [d for d in docs if iso_spans(sch, d)]
     real = [proj.unproj(sch, d) for d in docs]
